@@ -263,3 +263,67 @@ pub fn all_sets(
     }
     res
 }
+
+/// Local exceptions whose assertions are exactly the origins and router
+/// keys of the data set (ASPAs cannot be asserted through SLURM here).
+pub fn exceptions_for(ds: &DataSet) -> routinator::slurm::LocalExceptions {
+    use rpki::slurm::{
+        BgpsecAssertion, LocallyAddedAssertions, PrefixAssertion, SlurmFile,
+        ValidationOutputFilters, Base64KeyInfo,
+    };
+    assert!(ds.aspas.is_empty());
+    let file = SlurmFile::new(
+        ValidationOutputFilters::new(Vec::new(), Vec::new()),
+        LocallyAddedAssertions::new(
+            ds.origins.iter().map(|o| {
+                PrefixAssertion::new(o.prefix, o.asn, None)
+            }).collect::<Vec<_>>(),
+            ds.keys.iter().map(|k| {
+                BgpsecAssertion::new(
+                    k.asn, k.key_identifier,
+                    Base64KeyInfo::try_from(
+                        k.key_info.as_slice().to_vec()
+                    ).unwrap(),
+                    None
+                )
+            }).collect::<Vec<_>>(),
+        )
+    );
+    routinator::slurm::LocalExceptions::from_json(
+        &file.to_string(), false
+    ).expect("slurm round trip")
+}
+
+/// Installs the data set as the next validation result of the history.
+pub fn install(
+    history: &routinator::payload::SharedHistory,
+    config: &routinator::Config, ds: &DataSet
+) -> bool {
+    let report = routinator::payload::ValidationReport::new(config);
+    history.update(
+        report, &exceptions_for(ds), routinator::metrics::Metrics::new()
+    )
+}
+
+/// A configuration for tests that never touch the file system.
+pub fn mem_config() -> routinator::Config {
+    let mut config = routinator::Config::default_with_paths(
+        "/nonexistent/routinator.conf".into(),
+        "/nonexistent/rpki-cache".into(),
+    );
+    config.validation_threads = 1;
+    config
+}
+
+/// The four data sets used for history checks (origins and keys only).
+pub fn history_sets() -> Vec<DataSet> {
+    let o = origin_universe();
+    let k = key_universe();
+    let mk = |os: &[usize], ks: &[usize]| {
+        let mut ds = DataSet::default();
+        for i in os { ds.origins.insert(o[*i]); }
+        for i in ks { ds.keys.insert(k[*i].clone()); }
+        ds
+    };
+    vec![mk(&[], &[]), mk(&[0], &[]), mk(&[0, 1], &[0]), mk(&[1, 2], &[1])]
+}
